@@ -5,7 +5,7 @@ import os
 from verifylib import ROOT
 
 
-def generic(c, hprop, prop_files, lemma_files, what_tie, rule, nontrivial, assumptions, extra_trusted=(), extra_args=""):
+def generic(c, hprop, prop_files, lemma_files, what_tie, rule, nontrivial, assumptions, extra_trusted=(), extra_args="", level="proof"):
     coq_ok = c.coq_stage(prop_files, lemma_files)
     c.trusted += list(extra_trusted)
     res = {"evaluations": 0, "tie_mismatch": [], "oracle_bad": [], "distinct_nontrivial": 0, "by_cmd": {}}
@@ -41,7 +41,10 @@ def generic(c, hprop, prop_files, lemma_files, what_tie, rule, nontrivial, assum
              "traces_validated_against_impl": res["evaluations"] - len(res["tie_mismatch"]),
              "tie_mismatches": len(res["tie_mismatch"]), "oracle_failures": len(res["oracle_bad"]),
              "cases_by_kind": res["by_cmd"], "input_distribution": {k: v for k, v in stats.items() if k != "samples"}}
-    c.finish(level="proof", rule=rule, samples=stats.get("samples") or ["(no cases)"], assumptions=assumptions, extra=extra)
+    if level == "translation_validation":
+        extra["programs"] = res["evaluations"]
+        extra["disagreements_checked"] = len(res["tie_mismatch"]) + len(res["oracle_bad"])
+    c.finish(level=level, rule=rule, samples=stats.get("samples") or ["(no cases)"], assumptions=assumptions, extra=extra)
 
 
 def check_c17(c):
@@ -105,7 +108,8 @@ def check_c14(c):
         rule=TABLE_RULE + "Each emitted file = one program; C07/C13 histories add every table written by Add and by compaction.",
         nontrivial=lambda cmd, args, impl: impl.startswith("ok:") and len(impl) > 400,
         assumptions=["the judge shares the byte / varint / key / record-field decoders with the reader model (codec layer), nothing of the block or table readers",
-                     "log update indices are not range-checked by the writer; the judge checks the range for refs"])
+                     "log update indices are not range-checked by the writer; the judge checks the range for refs"],
+        level="translation_validation")
 
 def check_c03(c):
     generic(
@@ -203,7 +207,8 @@ def check_c15(c):
         rule=TABLE_RULE + "Restricted to NUL-free names and strings (C strings). non-trivial = both writers accepted the records and the table has > 200 bytes",
         nontrivial=lambda cmd, args, impl: impl.count("#ok#") == 1 and len(impl) > 600,
         assumptions=["the C code is not modelled: its behaviour is compared, file by file and query by query, with the records written (differential / translation validation); the Coq side contributes the spec decoder (judge of the C-written files) and the model reader (what the Go reader must return on them)",
-                     "stack directories written by one implementation and read by the other are not exercised (table files only)"])
+                     "stack directories written by one implementation and read by the other are not exercised (table files only)"],
+        level="translation_validation")
 
 
 def check_c19(c):
